@@ -6,7 +6,7 @@ import vcheck as V
 
 SHAPES = {0: "other", 1: "struct-by-value-in-map", 2: "toplevel-untagged-map", 3: "taggable-map-no-matching-tag", 4: "unexported-field", 5: "field-after-taggable-struct"}
 CLASSES = {0: "other", 1: "ptr-struct", 2: "slice", 3: "string-slice", 4: "ptr-string", 5: "map", 6: "taggable-map", 7: "taggable-struct",
-           8: "nil", 9: "rotation", 10: "event-wrapper-info", 11: "string-by-value", 13: "unexported-fields"}
+           8: "nil", 9: "rotation", 10: "event-wrapper-info", 11: "string-by-value", 13: "unexported-fields", 14: "struct-by-value"}
 
 # which mismatch kinds speak about which property (Run_Encrypt.kind / Run_Crypto.kind)
 RELEVANT = {
@@ -44,10 +44,10 @@ WHAT = {
 }
 
 ARGS = {
-    ("C09", "quick"): ["-modes", "special,tagtable,random", "-random", "3000", "-depth", "4"],
-    ("C09", "thorough"): ["-modes", "special,tagtable-full,enum,random", "-enum-depth", "3", "-random", "30000", "-depth", "4"],
-    ("C10", "quick"): ["-modes", "special,tagtable,random", "-random", "3000", "-depth", "4"],
-    ("C10", "thorough"): ["-modes", "special,tagtable-full,enum,random", "-enum-depth", "3", "-random", "30000", "-depth", "4"],
+    ("C09", "quick"): ["-modes", "special,tagtable,history,random", "-random", "3000", "-depth", "4", "-histories", "250"],
+    ("C09", "thorough"): ["-modes", "special,tagtable-full,enum,history,random", "-enum-depth", "3", "-random", "30000", "-depth", "4", "-histories", "3000"],
+    ("C10", "quick"): ["-modes", "special,tagtable,history,random", "-random", "3000", "-depth", "4", "-histories", "150"],
+    ("C10", "thorough"): ["-modes", "special,tagtable-full,enum,history,random", "-enum-depth", "3", "-random", "30000", "-depth", "4", "-histories", "2000"],
     ("C16", "quick"): ["-crypto", "-crypto-histories", "600"],
     ("C16", "thorough"): ["-crypto", "-crypto-histories", "12000"],
 }
@@ -149,6 +149,8 @@ def _size(v):
 def case_size(c):
     if "ops" in c:
         return len(c.get("ops") or []) + (1000 if c.get("conc") else 0)
+    if c.get("hist"):
+        return sum(_size(h.get("v")) + 1 for h in c["hist"][:c.get("step", 0) + 1])
     return _size(c.get("v")) + sum(1 for o in c.get("cfg", {}).get("ov", []) if o) + (0 if c.get("cfg", {}).get("wrap") == "ok" else 1)
 
 
@@ -231,6 +233,45 @@ def run(ctx, prop=None):
     if summ.get("tagtable_exhaustive") or summ.get("enum_complete"):
         ctx.coverage["exhaustive"] = bool(summ.get("tagtable_exhaustive")) and summ.get("enum_complete", True) is not False
         part["exhaustive_parts"] = {k: summ[k] for k in ("tagtable_exhaustive", "enum_depth", "enum_cases", "enum_complete") if k in summ}
+
+
+def concurrent_rotation_part(ctx):
+    """Only the concurrent-rotation search of encrypth -crypto (a few seconds): four goroutines process events on one
+    encrypt.Filter while a fifth rotates wrapper, salt and info TOGETHER; every HMAC value must be reproduced by one
+    rotation's (wrapper, salt, info), never by a mixture (Run_Crypto kind CKAtomic).  Appends a violation with match
+    "encrypt:CKAtomic@concurrent-rotation" to ctx.violations and its counts to ctx.coverage["parts"]; used by C19."""
+    part = {}
+    ctx.coverage["parts"]["encrypt-concurrent-rotation"] = part
+    binp = _build(ctx)
+    if not binp:
+        return
+    cdir = os.path.join(ctx.work, "encrypt-conc")
+    os.makedirs(cdir, exist_ok=True)
+    rc, out = V.run([binp, "-crypto", "-crypto-conc-only", "-crypto-histories", "0", "-out", cdir, "-prefix", "cases"],
+                    env=dict(os.environ, VERIF_SEED=str(ctx.seed)), timeout=900)
+    ctx.log(out.strip()[-300:])
+    if rc != 0:
+        rp = V.write_replay(ctx, "harness-run-conc", {"kind": "correspondence", "output": out[-4000:]})
+        ctx.violations.append({"match": "harness-crash", "replay": rp, "what": "encrypth -crypto-conc-only crashed", "no_input": True})
+        return
+    summ = json.load(open(os.path.join(cdir, "cases_summary.json")))
+    cases = [json.loads(l) for l in open(os.path.join(cdir, "cases.jsonl"))]
+    mism, failures = V.eval_shards(ctx, summ["files"], parse=_ITEM)
+    V.prune_shards(summ["files"], keep=[f for f, _ in failures])
+    for f, o in failures:
+        rp = V.write_replay(ctx, "coqc-" + os.path.basename(f), {"kind": "correspondence", "theorem_or_correspondence": "Run_Crypto.mismatches on " + f, "output": o})
+        ctx.violations.append({"match": "coqc-failure", "replay": rp, "what": "case file %s could not be evaluated" % f, "no_input": True})
+    bad = [m for m in mism if m[3] == "CKAtomic"]
+    if bad:
+        rp = V.write_replay(ctx, "encrypt-CKAtomic@concurrent-rotation", {
+            "kind": "search", "engine": "encrypth", "mode": "crypto", "signature": "CKAtomic@concurrent-rotation", "what": WHAT["CKAtomic"],
+            "theorem_or_correspondence": "Run_Crypto.conc_ok on values produced under concurrent Rotate (CryptoProofs.value_atomic_plain)",
+            "case": cases[0] if cases else None, "repro": "bin/check replay <this file> (a search: re-runs the concurrent part)"})
+        ctx.violations.append({"match": "encrypt:CKAtomic@concurrent-rotation", "replay": rp,
+                               "what": "%s: %s [CKAtomic@concurrent-rotation]" % (ctx.prop, WHAT["CKAtomic"])})
+    part.update({"values_attributed": summ.get("values_under_concurrent_rotation", 0), "mixtures_found": len(bad), "goroutines": 5,
+                 "rule": "events processed by 4 goroutines while a 5th rotates (wrapper j, salt j, info j) together; each HMAC value is attributed by independent recomputation"})
+    ctx.coverage["evaluations"] += summ.get("values_under_concurrent_rotation", 0)
 
 
 def handles_replay(rec):
